@@ -4,6 +4,7 @@ CONSTANTS
   MaxLen = 3
   KeyMode = "ideal"
   StoreMode = "store"
+  HitMode = "identity"
   Random = FALSE
 INIT Init
 NEXT Next
